@@ -856,8 +856,20 @@ fn generate_hunks(
 
         // Apply coercion if enabled
         if options.coerce_separators == CoercionMode::Auto {
-            // Find the match position within the line and extract context
-            if let Some(match_pos) = line_string.find(&content) {
+            // Locate the match within the decoded line and extract its context.  The match sits at
+            // byte column `m.column` of the raw line, i.e. right after the decoded prefix; searching
+            // for its text instead would find the FIRST place that text occurs in the line, which
+            // may be inside another identifier (`x_FOO_BAR FOO_BAR`), and coerce the wrong way.
+            let match_pos = line
+                .get(..m.column)
+                .map(|head| String::from_utf8_lossy(head).len())
+                .filter(|&pos| {
+                    line_string
+                        .get(pos..)
+                        .is_some_and(|rest| rest.starts_with(&content))
+                })
+                .or_else(|| line_string.find(&content));
+            if let Some(match_pos) = match_pos {
                 let identifier_context =
                     extract_immediate_context(&line_string, match_pos, match_pos + content.len());
 
